@@ -639,7 +639,7 @@ class TreeTransformBase(TreeTransform):
         """
         orphans = []
         # Find the potential orphans, stop if one item should be kept
-        for child_tid in self.by_parent()[dir_id]:
+        for child_tid in self.by_parent().get(dir_id, ()):
             if child_tid in self._removed_contents:
                 # The child is removed as part of the transform. Since it was
                 # versioned before, it's not an orphan
@@ -2617,19 +2617,27 @@ class InventoryPreviewTree(PreviewTree, inventorytree.InventoryTree):
 
     def get_symlink_target(self, path):
         """See Tree.get_symlink_target."""
-        file_id = self.path2id(path)
-        if not self._content_change(file_id):
-            return self._transform._tree.get_symlink_target(path)
         trans_id = self._path2trans_id(path)
+        if trans_id is None:
+            raise NoSuchFile(path)
+        if trans_id not in self._transform._new_contents:
+            tree_path = self._transform.tree_path(trans_id)
+            if tree_path is None or trans_id in self._transform._removed_contents:
+                raise NoSuchFile(path)
+            return self._transform._tree.get_symlink_target(tree_path)
         name = self._transform._limbo_name(trans_id)
         return osutils.readlink(name)
 
     def get_file(self, path):
         """See Tree.get_file."""
-        file_id = self.path2id(path)
-        if not self._content_change(file_id):
-            return self._transform._tree.get_file(path)
         trans_id = self._path2trans_id(path)
+        if trans_id is None:
+            raise NoSuchFile(path)
+        if trans_id not in self._transform._new_contents:
+            tree_path = self._transform.tree_path(trans_id)
+            if tree_path is None or trans_id in self._transform._removed_contents:
+                raise NoSuchFile(path)
+            return self._transform._tree.get_file(tree_path)
         name = self._transform._limbo_name(trans_id)
         return open(name, "rb")
 
